@@ -3,7 +3,9 @@
    rlpx.ReadMsg (SetReadDeadline(frameReadTimeout) before every frame), p2p/peer.go run / readLoop / pingLoop
    (a ping every pingInterval makes a live peer answer, so a connection stays open only while frames keep arriving),
    protocol/peer.go Handshake (waits for the remote status WITHOUT a timer of its own) and handler.go handle.
-   Time is counted in seconds; `Tick` = one second passes without a frame from the peer. *)
+   Time is counted in seconds; `Tick` = one second passes without a complete message from the peer.
+   The deadline component: `age` for the phases before the connection is a peer (one absolute deadline for both
+   handshakes, HandshakeTimeoutSec after the accept, which no byte from the peer moves), `idle` afterwards. *)
 From ZV Require Import Prelude GoSem.
 From ZV.gen Require Import Consts.
 Open Scope Z_scope.
@@ -14,7 +16,8 @@ Inductive frame :=
 | FBase          (* pong or another base-protocol frame *)
 | FStatusOk | FStatusBad
 | FMsgOk | FMsgBad   (* a sub-protocol message that handleMsg accepts / answers with an error *)
-| FGarbage.      (* bad MAC, undecodable frame *)
+| FGarbage       (* bad MAC, undecodable frame *)
+| FPartial.      (* bytes that do not complete a message: part of an auth message, part of a frame (a peer that trickles) *)
 Inductive event := Tick | Recv (f : frame).
 
 (* age: seconds since the connection was accepted; idle: seconds since the last frame *)
@@ -25,6 +28,9 @@ Definition step (c : conn) (e : event) : conn :=
   | PClosed, _ => c
   | (PEnc | PProto), Tick =>
       if HandshakeTimeoutSec <=? age c + 1 then mkConn PClosed (age c + 1) 0 else mkConn (ph c) (age c + 1) 0
+  (* bytes that complete nothing change nothing: the handshake deadline is one absolute deadline on the connection
+     (newRLPX), the frame read deadline is set once per message, before its first byte (rlpx.ReadMsg) *)
+  | (PEnc | PProto | PWaitStatus | PRunning), Recv FPartial => c
   | PEnc, Recv FProgress => mkConn PProto (age c) 0
   | PProto, Recv FProgress => mkConn PWaitStatus (age c) 0
   | (PEnc | PProto), Recv _ => mkConn PClosed (age c) 0
@@ -49,3 +55,18 @@ Definition wf_conn (c : conn) : Prop :=
   | PWaitStatus | PRunning => idle c < FrameReadTimeoutSec
   | PClosed => True
   end.
+
+(* For the record: the life cycle WITHOUT a deadline on the protocol handshake (the deadline armed for the encryption
+   handshake only and cleared afterwards; the protocol handshake is read from the bare frame reader, which sets none).
+   SessionProofs.proto_deadline_is_load_bearing: a peer that is silent after the encryption handshake is then never closed. *)
+Definition step_nodl (c : conn) (e : event) : conn :=
+  match ph c, e with
+  | PProto, Tick => mkConn PProto (age c + 1) 0
+  | _, _ => step c e
+  end.
+Fixpoint run_nodl (c : conn) (es : list event) : conn :=
+  match es with [] => c | e :: r => run_nodl (step_nodl c e) r end.
+
+(* a peer that only stalls: seconds pass, bytes arrive that complete nothing *)
+Definition stalls (e : event) : Prop := e = Tick \/ e = Recv FPartial.
+Definition fresh : conn := mkConn PEnc 0 0.
